@@ -41,7 +41,7 @@ def lean_stage(prop, tier, translated=False):
         import py2lean
 
         def pre():
-            st, detail = py2lean.main()
+            st, detail = (py2lean.main_coords() if translated == "coords" else py2lean.main())
             res["translator"] = st + (": " + detail if detail else "")
     ok, log = C.lake_build(targets, pre=pre)
     res["build_ok"] = ok
@@ -182,6 +182,11 @@ def main():
 def replay(P, prop, path):
     data = json.load(open(path if os.path.isabs(path) else os.path.join(C.VERIF, path)))
     cases = data.get("cases") or []
+    if data.get("gen_inputs"):
+        import gensearch
+        bad = gensearch.rerun(data["translated_kind"], data["gen_inputs"])
+        print(f"replay: {bad} of {len(data['gen_inputs'])} inputs still fail on the real code")
+        return 1 if bad else 0
     if not cases:
         print("replay has no cases (theorem/correspondence named):", data.get("broken"))
         return 1
@@ -199,7 +204,7 @@ def replay(P, prop, path):
 
 def check(P, prop, tier, seed, t0):
     known = load_known(prop)
-    lean = lean_stage(prop, tier, translated=bool(getattr(P, "TRANSLATED", False)))
+    lean = lean_stage(prop, tier, translated=getattr(P, "TRANSLATED", False))
     if lean["translator"].startswith("untranslatable"):
         print(f"NOTE tie-degraded translator: {lean['translator']} (the snapshot definitions are used; correspondence remains the tie)")
     rng = random.Random(seed * 1000003 + (17 if tier == "thorough" else 0))
@@ -210,6 +215,7 @@ def check(P, prop, tier, seed, t0):
     results.sort(key=lambda r: r["case"]["index"])
 
     viol, known_hits, mismatches, amb = [], {}, [], 0
+    gen_search = None
     kinds = {}
     distinct = set()
     for r in results:
@@ -247,6 +253,20 @@ def check(P, prop, tier, seed, t0):
     elif mismatches or lean["broken"]:
         exit_code = 1
         broken = list(lean["broken"])
+        tkind = getattr(P, "TRANSLATED", False)
+        if lean["broken"] and tkind and lean["translator"].startswith("changed"):
+            import gensearch
+            found, gstats = gensearch.search("coords" if tkind == "coords" else "kernels")
+            gen_search = gstats
+            if found:
+                p = write_replay(prop, "translated-definition-fails",
+                                 {"broken": broken, "translated_kind": "coords" if tkind == "coords" else "kernels",
+                                  "gen_inputs": found, "search": gstats, "seed": seed, "tier": tier,
+                                  "note": "the definition regenerated from /repo's source no longer equals the proved model; "
+                                          "at these inputs the real function in /repo also departs from the proved value"})
+                lines.append(f"VIOLATION property={prop} replay={p}")
+                broken = None
+    if exit_code and not viol and broken is not None:
         if mismatches:
             broken.append("correspondence:" + prop + ":" + mismatches[0]["case"]["op"].split(" ")[0])
         p = write_replay(prop, "theorem-broken" if lean["broken"] else "model-impl-mismatch",
@@ -277,7 +297,8 @@ def check(P, prop, tier, seed, t0):
             "oracle_violations": len(viol), "known_findings_hit": sorted(known_hits),
             "input_distribution": kinds,
             "source_hashes": C.source_hashes(P.FILES),
-            "tie": {"correspondence": True, "translator": lean.get("translator", "not used")},
+            "tie": {"correspondence": True, "translator": lean.get("translator", "not used"),
+                    "translated_definition_search": gen_search},
         },
         "assumptions": list(getattr(P, "ASSUMPTIONS", [])),
         "wall_s": round(time.time() - t0, 2),
